@@ -75,6 +75,10 @@ def make_stub(base_name, logs, clock):
     return Stub
 
 
+def _same(a, b):
+    return a is b or (isinstance(a, list) and isinstance(b, list) and a == b)
+
+
 def judge(n, numax, rhomax, base_name, logs, points, rewards, algo, T, skip_ok=True):
     """points[t-1], rewards[t-1] for rounds 1..T; logs = learner logs in construction order."""
     sched = ref_schedule(n, rhomax)
@@ -116,7 +120,7 @@ def judge(n, numax, rhomax, base_name, logs, points, rewards, algo, T, skip_ok=T
         if val_rounds:
             last = [x for x in lg.pulls if x[1] == "pull"][-1][2]
             for t in val_rounds:
-                if not (points[t - 1] is last or list(points[t - 1]) == list(last)):
+                if not _same(points[t - 1], last):
                     raise Violation("validation-point", "round %d validates %r, learner %d's last proposal was %r" % (t, points[t - 1], i, last), t)
             vr = [rewards[t - 1] for t in val_rounds]
             score = math.fsum(float(x) for x in vr) / len(vr)
@@ -139,10 +143,10 @@ def judge(n, numax, rhomax, base_name, logs, points, rewards, algo, T, skip_ok=T
         scale = max(1.0, max(abs(float(x)) for x in rewards[:2 * N * L]))
         okpts = [lastpts[k] for k in range(N) if abs(scores[k] - best) <= 1e-9 * scale]
         for t in range(2 * N * L + 1, T + 1):
-            if not any(points[t - 1] is q or list(points[t - 1]) == list(q) for q in okpts):
+            if not any(_same(points[t - 1], q) for q in okpts):
                 raise Violation("final-point", "round %d after the last phase returned %r, best validated point(s) %r" % (t, points[t - 1], okpts), t)
         lp = algo.get_last_point()
-        if not any(lp is q or list(lp) == list(q) for q in okpts):
+        if not any(_same(lp, q) for q in okpts):
             raise Violation("final-point", "get_last_point() = %r, best validated point(s) %r (scores %r)" % (lp, okpts, scores), T)
         if len(ga.V_reward) != N:
             raise Violation("validation-score", "%d scores for N=%d phases" % (len(ga.V_reward), N), T)
